@@ -207,6 +207,9 @@ pub fn matrix() -> Vec<MatrixCase> {
         add("concat_left", format!("[{{{{ {u} ~ 'a' }}}}]"), PRINT, "[a]");
         // iterating
         add("iterate", format!("[{{% for q in {u} %}}x{{% endfor %}}]"), PRINT, "[]");
+        add("iterate_recursive_call", format!("[{{% for q in [1] recursive %}}<{{{{ loop({u}) }}}}>{{% endfor %}}]"), PRINT, "[<>]");
+        add("iterate_recursive_outer", format!("[{{% for q in {u} recursive %}}x{{% endfor %}}]"), PRINT, "[]");
+        add("iterate_unpack", format!("[{{% for a, b in {u} %}}x{{% endfor %}}]"), PRINT, "[]");
         add("iterate_else", format!("[{{% for q in {u} %}}x{{% else %}}e{{% endfor %}}]"), PRINT, "[e]");
         add("iterate_filter_list", format!("[{{{{ {u}|list|length }}}}]"), PRINT, "[0]");
         add("iterate_in_operator", format!("[{{{{ 1 in {u} }}}}]"), PRINT, "[False]");
@@ -294,5 +297,5 @@ pub fn run(ctx: &mut Ctx) {
     preamble(ctx);
     let t = ctx.tier;
     ctx.run_enumerated::<Matrix>(matrix(), true);
-    ctx.run_part::<Monotone>(t.pick(150_000, 3_000_000));
+    ctx.run_part::<Monotone>(t.pick(150_000, 12_000_000));
 }
